@@ -755,6 +755,10 @@ def _extract_constant_impl(expr: Expression) -> float:
 
         if expr.op == "**":
             if isinstance(expr.right, Constant):
+                # Power of a constant sub-expression, e.g. Constant(2) ** 3
+                base = _constant_factor(expr.left)
+                if base is not None:
+                    return float(base ** expr.right.value)
                 exp = int(expr.right.value)
                 if exp == 0:
                     return 1.0  # x**0 = 1
